@@ -18,7 +18,7 @@ BACKENDS = ["default", "torch", "jax", "fortran"]
 SOLVERS = ["euler", "heun", "scipy", "diffrax", "other"]
 DELAYS = ["none", "discrete", "spread", "past"]
 ENTRIES = ["run", "func", "jac"]
-GUARDS = ["guard_path_not_attr"]
+GUARDS = ["guard_path_not_attr", "guard_node_value_not_circuit"]
 MIXED = ["mix_ds", "mix_sd"]
 
 # ---------------------------------------------------------------------------------------------- pool of valid models
@@ -94,6 +94,19 @@ def hier_mutants(m, rng, tier):
         p, val = list(m["node_values"].items())[0]
         mm = copy.deepcopy(m); mm["node_values"] = {misspell(p, i): val}
         mk("HNodeValue", f"{i}", mm, ("node_values",), misspell(p, i))
+    # keys that are one level too short for the hierarchy (one component dropped): the node part then names a circuit
+    # (or nothing) instead of a node
+    for hkind, use, p in (("HOutput", (), list(m["outputs"].values())[0]), ("HInput", ("inputs",), m["inputs"][0]),
+                          ("HUpdate", ("update",), list(m["update"])[0]), ("HNodeValue", ("node_values",), list(m["node_values"])[0])):
+        parts = p.split("/")
+        for i in range(len(parts)):
+            q = "/".join(parts[:i] + parts[i + 1:])
+            mm = copy.deepcopy(m)
+            if hkind == "HOutput": mm["outputs"] = {"v": q}
+            if hkind == "HInput": mm["inputs"] = [q]
+            if hkind == "HUpdate": mm["update"] = {q: 2.0}
+            if hkind == "HNodeValue": mm["node_values"] = {q: 2.0}
+            mk(hkind, f"short:{i}", mm, use, q)
     res = []
     for mu in out:
         for vec in ([False, True] if tier == "thorough" else [rng.random() < 0.5]):
@@ -678,10 +691,10 @@ def run_cases(ctx, cases):
             outs[i] = r
     return outs
 
-def fixed_F3():
-    """the one-line model switch of coq/theories/Guards.v"""
+def fixed_F3(name="fixed_F3"):
+    """the one-line model switches of coq/theories/Guards.v"""
     txt = open(os.path.join(COQ, "theories", "Guards.v")).read()
-    return re.search(r"Definition fixed_F3 : bool := (true|false)\.", txt).group(1) == "true"
+    return re.search(r"Definition %s : bool := (true|false)\." % name, txt).group(1) == "true"
 
 def summarize(case):
     c = {k: v for k, v in case.items() if k != "model"}
@@ -727,7 +740,7 @@ def check(ctx):
     badD = back(cmp_["badD"])
     badI = sorted(set(badI) | set(badD))      # a wrong dispatch is a disagreement with the mechanism model
     ctx.note(f"solver dispatch observed on {cmp_['dispatched']} runs that reached an integration routine; "
-             f"disagreements with Guards.solve_dispatch / named_method: {len(badD)}; model switch fixed_F3={fixed_F3()}")
+             f"disagreements with Guards.solve_dispatch / named_method: {len(badD)}; model switches fixed_F3={fixed_F3()} fixed_F4={fixed_F3('fixed_F4')}")
     assert not notwf, f"generator produced a network with duplicate keys: {[summarize(cases[i]) for i in notwf[:3]]}"
     # 'ok' must mean that numbers came back; a quiet return without numbers would be a harness blind spot
     hollow = [i for i in good if outs[i]["r"] in ("ok", "warn") and outs[i].get("numbers") is False]
@@ -775,7 +788,7 @@ def check(ctx):
                                           fortran_reaching_f2py=sum(1 for c in cases if c["t"] == "config" and c["be"] == "fortran" and not c["vec"]),
                                           note="`sparse` is a parameter of get_jacobian_func only: rows with sparse=true are run for that entry point"),
                               impl_vs_model_mismatches=len(badI), impl_vs_spec_mismatches=len(badS),
-                              solver_dispatch_observed=cmp_["dispatched"], solver_dispatch_mismatches=len(badD), model_switch_fixed_F3=fixed_F3(),
+                              solver_dispatch_observed=cmp_["dispatched"], solver_dispatch_mismatches=len(badD), model_switch_fixed_F3=fixed_F3(), model_switch_fixed_F4=fixed_F3('fixed_F4'),
                               mixed_delay_rows=sum(1 for c in cases if c["t"] == "config" and c["dl"] in MIXED),
                               outside_guards={g: len(cmp_[g]) for g in GUARDS}),
                    trusted_base=["exception classes are compared through a three-valued enum (PyRatesException / NotImplementedError / any other)",
@@ -785,4 +798,4 @@ def check(ctx):
                                 "Guards.crash_gen / crash_call list the loud downstream failures of those probe models on the current tree "
                                 "(class 'other'); they are part of Impl, not of the guards",
                                 "mixed delay kinds (plain-delay edge + delay+spread edge, both orders) are run on the slice inplace=true, sparse=false",
-                                "outside guard_path_not_attr (known finding C20-F3) the full statement is refuted (C20_refuted_verify_path)"])
+                                "outside guard_node_value_not_circuit (known finding C20-F4) the full statement is refuted (C20_refuted_short_node_value); F1-F3 are repaired (D48, D49, D76)"])
